@@ -4,8 +4,8 @@
    all configurations (authenticator kind, compression setting, ANY local / remote algorithm lists, any version).
    `c_guard cfg = true` = the reactor's close() records ConnectionShutdown while the handshake is unfinished
    (asyncore always; asyncio / twisted / eventlet / gevent since fix C47-1). *)
-From Coq Require Import ZArith List Bool.
-From Verif Require Import Handshake C47_proofs C47_main.
+From Coq Require Import ZArith List Bool Lia ZifyBool.
+From Verif Require Import PyBase HsProtoVersion Handshake C47_proofs C47_main.
 Import ListNotations.
 Local Open Scope Z_scope.
 
@@ -75,6 +75,11 @@ Theorem C47_checksumming_iff_v5 : forall cfg rs, c_guard cfg = true ->
   /\ (forall v, In v [1; 2; 3; 4; 5; 6; 65; 66] -> (has_cs v = true <-> v = 5 \/ v = 6)).
 Proof. exact c47_checksumming_iff_v5_lemma. Qed.
 Print Assumptions C47_checksumming_iff_v5.
+
+(* (T) the model's version predicate IS the driver's: has_checksumming_support is regenerated from cassandra/__init__.py *)
+Theorem C47_has_cs_is_source : forall v, has_checksumming_support v = has_cs v.
+Proof. intro v. unfold has_checksumming_support, has_cs. lia. Qed.
+Print Assumptions C47_has_cs_is_source.
 
 (* once the connection is reported, further protocol replies are dropped: the handshake cannot be re-run *)
 Theorem C47_handshake_is_final : forall cfg rs r, connected (fst (run cfg rs)) = true ->
